@@ -148,6 +148,7 @@ fn main() {
                 "C13" => props::c13::replay(&engine, case),
                 "C14" => props::c14::replay(&engine, case),
                 "C17" => props::c17::replay(&engine, case),
+                "C20" if engine != "e2e-height" => props::c20::replay(&engine, case),
                 _ if engine == "world" => {
                     let p: &'static str = Box::leak(prop.clone().into_boxed_str());
                     props::worldprops::replay_world(p, case)
